@@ -83,6 +83,20 @@ CHECKS = {
        "flag cleared. The emulator must exit non-zero without printing 'emulation finished ok'; a signal is reported too.",
   note="Thorough enumerates every corruption of every class on 64 bases; quick takes a strided sample per class on 16. "
        "Events whose payload size no model checks are outside the statement."),
+ "C19": dict(
+  cat="exploration", ref="DESIGN.md section 3, C19",
+  technique="runtime monitoring with sanitizers: structure-aware trace mutation through the four tools built with ASan+UBSan and an exact-size heap stream buffer (hook H1); signal / exit status / sanitizer report / hang oracle",
+  text="Valid multi-model traces are mutated structurally - flags nibbles, jumbo size fields (incl. >= 2^31), truncation "
+       "inside the last events, every payload shape for every payload-reading event (also as the last event of the "
+       "stream), jumbo data without nil, MCV and clock extremes, page-multiple file sizes, byte noise; every JSON type at "
+       "every metadata position, loom_cpus shapes, mark/require/loom garbage, malformed and deeply nested JSON; clock "
+       "offset tables - and every mutant is given to ovniemu, ovnidump, ovnitop and ovnisort built with ASan+UBSan, the "
+       "stream loaded into an exact-size heap buffer so that a one-byte over-read is caught. Violation = signal (incl. "
+       "abort), exit status other than 0/1, silent failure, sanitizer report, or a hang confirmed twice (20 s then 60 s "
+       "on inputs of a few KiB). 'Never loops forever' is decided only as that bounded-time restatement.",
+  note="Sanitizers miss in-bounds reads of the wrong bytes and far out-of-bounds accesses; signed-integer-overflow is "
+       "not counted (the property is about crashes, hangs and out-of-bounds accesses). Quick: 16 bases, 8 mutants per "
+       "mutation class; thorough: 48 bases, every mutant."),
 }
 
 NOT_YET = "check not implemented yet in this revision (work in progress, see DESIGN.md section 3)"
